@@ -242,6 +242,7 @@ func cmdDrive(args []string) {
 	outDir := fs.String("out", ".", "output directory")
 	prof := fs.String("profile", "pay", "driver profile")
 	cfgJSON := fs.String("cfg", "", "config overrides (JSON)")
+	abciMode := fs.Bool("abci", false, "drive through the real ABCI calls (DeliverTx / EndBlock / Commit / BeginBlock of all modules)")
 	fs.Parse(args)
 	os.MkdirAll(*outDir, 0o755)
 	start := time.Now()
@@ -258,6 +259,7 @@ func cmdDrive(args []string) {
 		if err != nil {
 			die("chain.New: %v", err)
 		}
+		c.ABCI = *abciMode
 		path := filepath.Join(*outDir, fmt.Sprintf("%s-%d-%03d.ndjson", *prof, *seed, i))
 		tw, err := chain.NewTraceWriter(path)
 		if err != nil {
@@ -313,7 +315,9 @@ func cmdReplay(args []string) {
 	in := fs.String("in", "", "events: JSON array file, or an ndjson trace/replay file")
 	out := fs.String("out", "replayed.ndjson", "output trace")
 	cfgJSON := fs.String("cfg", "", "config overrides (JSON); an ndjson input carries its own")
+	abciMode := fs.Bool("abci", false, "replay through the real ABCI calls")
 	fs.Parse(args)
+	replayABCI = *abciMode
 	if st, err := os.Stat(*in); err == nil && st.IsDir() {
 		// batch mode: every *.json behaviour in the directory -> <out>/<name>.ndjson
 		ents, _ := os.ReadDir(*in)
@@ -381,11 +385,14 @@ func cmdReplay(args []string) {
 	}
 }
 
+var replayABCI bool
+
 func replayOne(cfg chain.Config, events []chain.Event, out string) string {
 	c, err := chain.New(cfg)
 	if err != nil {
 		die("chain.New: %v", err)
 	}
+	c.ABCI = replayABCI
 	tw, err := chain.NewTraceWriter(out)
 	if err != nil {
 		die("%v", err)
